@@ -14,3 +14,5 @@ func c18Explore(i, n int, tier string) c18Result { return c18Result{} }
 func c18Replay(r *core.Run, c core.Case) {}
 
 func C18Debug() {}
+
+func stepCount() int64 { return 0 }
